@@ -21,6 +21,7 @@
 import M4riProofs.Trsm
 import M4riProofs.MathlibSpec
 import M4riProofs.Top
+import M4riProofs.GenTie
 namespace M4ri.Props.C04
 open M4ri M4ri.BMat
 
@@ -88,5 +89,14 @@ theorem upper_right_solves {U B : BMat} (hUr : U.nrows = B.ncols) (hUc : U.ncols
 #check @M4ri.BMat.TB.upperLeftKernel_eq
 #check @M4ri.BMat.TB.upperRightBase_eq
 #check @M4ri.BMat.TB.lowerRightBase_eq
+
+
+/-! ### tie to the C text: the functions below are GENERATED from /repo/m4ri by vlib/ctrans.py (clang AST) on every
+    check (M4ri/Gen/CFuns.lean); these theorems prove them equal to the hand-written model definitions the theorems
+    above are about, for all arguments of the C domain -/
+#check @M4ri.GenTie.trsmUpperRightSplit_eq
+#check @M4ri.GenTie.trsmLowerRightSplit_eq
+#check @M4ri.GenTie.trsmLowerLeftSplit_eq
+#check @M4ri.GenTie.trsmUpperLeftSplit_eq
 
 end M4ri.Props.C04
